@@ -114,6 +114,32 @@ def run(ck, replay=None):
     darsia = import_darsia()
     rng = random.Random(ck.seed)
     quick = ck.tier == "quick"
+    # patch layouts of two images that agree in patch count, patch size in voxels and overlap but not in extent (at least one
+    # of them not divisible by the patch count), along every interleaving of spec/TwoObjects.tla
+    from lib import twoobj
+    hists = twoobj.histories(ck)
+    ntwin = 0
+    tspecs = []
+    for (na, nb, k, rel) in (((10, 13), (11, 13), [3, 4], 0.0), ((12, 16), (11, 14), [3, 4], 0.25), ((5, 6), (6, 6), [2, 2], 0.0)):
+        def make(o, na=na, nb=nb, k=k, rel=rel):
+            n = na if o == "a" else nb
+            img = darsia.Image(np.arange(float(n[0] * n[1])).reshape(n), space_dim=2, dimensions=[0.5 * n[0], 0.25 * n[1]], scalar=True)
+            with contextlib.redirect_stdout(io.StringIO()):
+                return (img, darsia.Patches(img, list(k), rel_overlap=rel))
+
+        def use(o, obj, k=k):
+            img, P = obj
+            with contextlib.redirect_stdout(io.StringIO()):
+                asm = P.assemble()
+            sl = lambda t: [int(t[0].start), int(t[0].stop), int(t[1].start), int(t[1].stop)]  # noqa: E731
+            return json.dumps({"rois": [[sl(P.rois[i][j]) for j in range(k[1])] for i in range(k[0])],
+                               "rel": [[sl(P.relative_rois_without_overlap[i][j]) for j in range(k[1])] for i in range(k[0])],
+                               "cv": np.asarray(P.global_corners_voxels).astype(int).tolist(), "lcv": np.asarray(P.local_corners_voxels).astype(int).tolist(),
+                               "asm": bool(np.array_equal(asm.img, img.img)), "shapes": [[list(P(i, j).img.shape) for j in range(k[1])] for i in range(k[0])]})
+
+        sel = hists if not quick else [h for h in hists if len(h) <= 4]
+        tspecs.append((sel, f"patches-{na[0]}x{na[1]}-{nb[0]}x{nb[1]}", make, use, lambda x, y: x == y, f"twin:{na[0]}x{na[1]}"))
+    ntwin = twoobj.run(ck, "C19", tspecs)
     by_rel = {}
     for (n, k, rel, b) in axis_scn:
         by_rel.setdefault(rel, []).append((n, k, b))
@@ -148,6 +174,7 @@ def run(ck, replay=None):
         div = "divisible" if all(e["n"][a] % e["k"][a] == 0 for a in range(2)) else "nondivisible"
         ck.violation(f"C19:{b['clause']}:{div}", f"Patches violates {b['clause']} ({div} extents)", info[b["tid"]])
     built = [e for e in events if e["op"] == "patches"]
+    ck.cov["twin_object_histories"] = ntwin
     ck.cov["evaluations"] = len(events)
     ck.cov["distinct_nontrivial"] = len({(tuple(e["n"]), tuple(e["k"]), e["relp"], e["relq"]) for e in built if e["k"] != [1, 1]})
     ck.cov["rule"] = "per-axis (extent, count, overlap) triples enumerated by TLC (MC_Patches) are paired into seeded 2-D scenarios with float concretisations; non-trivial = built patches with more than one patch"
